@@ -257,7 +257,7 @@ func init() {
 		for _, g := range []struct {
 			mod string
 			np  int
-		}{{"Gen_C03", 2}, {"Gen_C04", 2}, {"Gen_C05", 2}, {"Gen_C06", 4}, {"Gen_C14", 1}, {"Gen_C02", 8}} {
+		}{{"Gen_C03", 2}, {"Gen_C04", 2}, {"Gen_C05", 2}, {"Gen_C06", 4}, {"Gen_C14", 1}, {"Gen_C02", 16}} {
 			np := g.np
 			if c.Thorough {
 				np = 1
@@ -301,13 +301,18 @@ func init() {
 		if err := simulateAndReplay(c, mcRun{"MC_AutogradSlices", 7, 2, true, true}, sims, depth, 30*time.Minute); err != nil {
 			return err
 		}
+		// repeated back-propagations over leaf-sharing graphs (the Flags configuration: 2 back-propagations): gradient
+		// tensors handed out after the first one must be bit-identical after the second
+		if err := dumpAndReplay(c, mcRun{"MC_AutogradFlags", 3, 2, true, false}, 40*time.Minute); err != nil {
+			return err
+		}
 		// every operation, shape, rank and argument of the other grids: each case is executed once as it is and once with
 		// every slice handed to the library (nested data of every rank, dimension lists, ranges, tensor lists) overwritten
 		// right after the call; tensors and gradients must be bit-identical
 		for _, g := range []struct {
 			mod string
 			np  int
-		}{{"Gen_C06", 2}, {"Gen_C03", 2}, {"Gen_C04", 2}, {"Gen_C05", 2}, {"Gen_C02", 8}, {"Gen_C16", 1}} {
+		}{{"Gen_C06", 2}, {"Gen_C03", 2}, {"Gen_C04", 2}, {"Gen_C05", 2}, {"Gen_C02", 16}, {"Gen_C16", 1}} {
 			np := g.np
 			if c.Thorough {
 				np = 1
